@@ -309,6 +309,8 @@ def main():
     # natively; the real code must reach the same cover point with no failed assertion
     conf_ok = conf_bad = 0
     conf_limit = spec.get("conformance_limit", 8 if tier == "quick" else 40)
+    if spec.get("conformance") is False:
+        conf_limit = 0  # witnesses depend on hash values (A-HASH abstraction): not replayable natively
     for r in results:
         for cid, sc in sorted((r.get("cover_models") or {}).items()):
             if sc is None or conf_ok + conf_bad >= conf_limit or "(feasibility unknown)" in cid or cid in spec.get("conformance_skip", []):
